@@ -29,13 +29,7 @@ const (
 	cOpCount
 )
 
-// cTB is a TB without shared state: testing.T's Helper/Name/Logf/Log are goroutine-safe by contract.
-type cTB struct{ nilTB }
 
-func (cTB) Helper()             {}
-func (cTB) Name() string        { return "C14" }
-func (cTB) Logf(string, ...any) {}
-func (cTB) Log(...any)          {}
 
 type concLog struct {
 	signalled int
@@ -175,17 +169,6 @@ func concScenario(progs [][]uint8, logMode int, joined bool, mainOp uint8) {
 
 var c14Alphabet = []uint8{cHelperName, cLogf, cErrorf, cFail, cFailed, cContext, cCleanup}
 
-func concProgs(name string, g, k int, alphabet []uint8) [][]uint8 {
-	progs := make([][]uint8, g)
-	for gi := 0; gi < g; gi++ {
-		for j := 0; j < k; j++ {
-			op := nondetU8(name + itoa(gi) + "." + itoa(j))
-			assume(inAlphabet(op, alphabet))
-			progs[gi] = append(progs[gi], op)
-		}
-	}
-	return progs
-}
 
 // H_C14_pairs: two goroutines started by the property, one call each (unordered pair of
 // operations: the goroutines are symmetric), joined by the body or only by a cleanup.
